@@ -410,6 +410,9 @@ class Vec(Obj):
     def m_reserve(self, I, args, n):
         return VOID
 
+    def m_data(self, I, args, n):
+        return self  # pointer to the elements: only used to build views (std::span) of this vector
+
 
 # ---------------------------------------------------------------- scope guards (mirror of util/scope.h)
 
